@@ -598,7 +598,7 @@ PROPS = {
     ),
     "C11": dict(
         retry_on_failure=True,
-        suites=["c11"],
+        suites=["c11", "c11h3"],
         judge=judge_c11,
         level="proof",
         rule="checksum on corner strings (sums at 0xfffe..0x30000, all-ff up to 65535 bytes) and random strings; Echo::serialize for "
@@ -609,7 +609,11 @@ PROPS = {
              "sockets bound to lo (skipped with a note when raw sockets are not permitted): echo requests from two clients to "
              "127.0.0.1 (the kernel answers), injected echo replies with the same / shorter / longer / other data / other id, "
              "injected ICMP errors (types 3, 11, 12) quoting a request, clock advances around the request timeout, and reads of "
-             "each client's queue (capacity 3), compared with the waiter-table model",
+             "each client's queue (capacity 3), compared with the waiter-table model"
+             " Live over HTTP/3 (suite c11h3, where raw sockets are permitted): two clients CONNECT _icmp through the real QUIC listener "
+             "and ping 127.0.0.1 with their own identifiers (6, thorough 20, requests each, records split across writes, 4 data sizes): "
+             "each must get exactly one 22-byte 7.4 record per request (source 127.0.0.1, type 0, code 0, its id and sequence number) "
+             "and none of the other client's",
         explanation="theorems checksum_verifies (all payloads <= 65535 bytes), request_decode_segmentation, request_fields_faithful, "
                     "*_no_panic, v4_error_designates, reply_format, waiter-table invariants",
         trusted=["ICMPv6 checksum is computed by the kernel for raw ICMPv6 sockets (not modelled)",
@@ -875,7 +879,7 @@ PROPS = {
     ),
     "C07": dict(
         retry_on_failure=True,
-        suites=["c07", "c07socks"],
+        suites=["c07", "c07socks", "c07h3"],
         judge=judge_c07,
         level="proof",
         rule="7 directed and 150 (thorough 1500) random histories of 3-14 operations {client datagram on flow i (6 lengths up to 9000), "
@@ -888,7 +892,13 @@ PROPS = {
              " SOCKS5 variant (suite c07socks): 4 directed and 100 (thorough 800) of the same kind of histories through the real "
              "udp_pipe::DuplexPipe wired to the real SOCKS5 forwarder multiplexer, with a SOCKS5 proxy (UDP ASSOCIATE) of the harness "
              "between it and the servers; compared with TT/Model/UdpSocks.lean (one association per client source, released with "
-             "its last flow)",
+             "its last flow)"
+             " Live over HTTP/3 (suite c07h3, wall clock, no model): CONNECT _udp2 through the real QUIC listener; 7 flows (2 client "
+             "sources x 3 loopback servers, one dead port), 4 datagrams each (1-3000 bytes) written in 777-byte pieces; every server must "
+             "see, per source socket, exactly one flow's payload sequence, and one socket per flow; the servers' replies must come back as "
+             "6.4 records labelled (destination, source) of their flow, unaltered, never twice, all of them when the client's window is "
+             "large (with a 6000-byte window the dropping sink may omit whole datagrams); outbound_udp_sockets follows the flows and "
+             "returns to zero; a dead-port flow does not stop the others",
         explanation="theorems sent_to_own_destination, datagram_step_output, reply_labelled_with_own_flow, reply_delivered_on_live_flow, "
                     "tables_coupled, sockets_from_history, idle_flow_released, tick_expires_all_idle, fresh_flow_survives_advance, "
                     "tick_period, dns_flow_released_when_answered, dns_flow_kept_while_pending, dns_query_counts, "
